@@ -176,3 +176,22 @@ package load
 //@   property C02
 //@   ensures result != nil && fresh(result) && result.manager != nil && fresh(result.manager) && sameSlice(result.options, opts)
 //@   allocates
+
+// the two package switches are independent: DisableLog silences the statistics only, Disable turns shedding off - neither
+// touches the other's flag (a shedder built after DisableLog still sheds)
+//@ func DisableLog
+//@   property C02
+//@   requires logEnabled != nil && enabled != nil && logEnabled != enabled
+//@   ensures !abVal[logEnabled] && abVal[enabled] == old(abVal[enabled])
+//@   modifies abVal[logEnabled]
+//@ func Disable
+//@   property C02
+//@   requires logEnabled != nil && enabled != nil && logEnabled != enabled
+//@   ensures !abVal[enabled] && abVal[logEnabled] == old(abVal[logEnabled])
+//@   modifies abVal[enabled]
+// the configured CPU threshold is taken as it is, for every value (0 = shed whenever in-flight exceeds capacity)
+//@ func WithCpuThreshold closure 0
+//@   property C02
+//@   requires opts != nil
+//@   ensures opts.cpuThreshold == threshold
+//@   modifies opts.cpuThreshold
